@@ -62,15 +62,17 @@ mod agg_depth__ser;
 mod agg_lattice__to;
 mod neg_rec_after__exp;
 mod agg_empty__to;
-mod disj__mrt;
-mod disj__srcpar;
-mod disj_nested__par;
-mod pat_args__exppar;
-mod multi_head_disj__pari;
-mod mac_basic__ser;
-mod mac_basic__src0;
-mod mac_basic__exppar;
-mod mac_nested__pari;
+mod agg_const_args__par;
+mod disj__topar;
+mod disj__init;
+mod disj__exppar;
+mod pat_args__pari;
+mod multi_head_disj__ser;
+mod neg_in_disj__exp;
+mod mac_basic__mrt;
+mod mac_basic__srcpar;
+mod mac_nested__ser;
+mod mac_gensym_disj__exp;
 
 fn lookup(name: &str) -> fn() -> Box<dyn Driven> {
    match name {
@@ -128,15 +130,17 @@ fn lookup(name: &str) -> fn() -> Box<dyn Driven> {
       "agg_lattice__to" => agg_lattice__to::make,
       "neg_rec_after__exp" => neg_rec_after__exp::make,
       "agg_empty__to" => agg_empty__to::make,
-      "disj__mrt" => disj__mrt::make,
-      "disj__srcpar" => disj__srcpar::make,
-      "disj_nested__par" => disj_nested__par::make,
-      "pat_args__exppar" => pat_args__exppar::make,
-      "multi_head_disj__pari" => multi_head_disj__pari::make,
-      "mac_basic__ser" => mac_basic__ser::make,
-      "mac_basic__src0" => mac_basic__src0::make,
-      "mac_basic__exppar" => mac_basic__exppar::make,
-      "mac_nested__pari" => mac_nested__pari::make,
+      "agg_const_args__par" => agg_const_args__par::make,
+      "disj__topar" => disj__topar::make,
+      "disj__init" => disj__init::make,
+      "disj__exppar" => disj__exppar::make,
+      "pat_args__pari" => pat_args__pari::make,
+      "multi_head_disj__ser" => multi_head_disj__ser::make,
+      "neg_in_disj__exp" => neg_in_disj__exp::make,
+      "mac_basic__mrt" => mac_basic__mrt::make,
+      "mac_basic__srcpar" => mac_basic__srcpar::make,
+      "mac_nested__ser" => mac_nested__ser::make,
+      "mac_gensym_disj__exp" => mac_gensym_disj__exp::make,
       _ => panic!("no such program variant in this shard: {}", name),
    }
 }
